@@ -345,7 +345,8 @@ def check(repo):
     rules.append(r4)
     from . import c01, c03, c05
     for mod, rid, what in ((c01, "R1.1", "label / key derivations of set-up vs token / search"), (c01, "R1.2", "block geometry written vs parsed"),
-                           (c01, "R1.4", "capacities, divisors and level choice"), (c03, "R3.1", "wire-format field lengths"), (c05, "R5.1", "real vs filler entry lengths")):
+                           (c01, "R1.3", "Pi2Lev case bounds vs block capacities"), (c01, "R1.4", "capacities, divisors and level choice"),
+                           (c01, "R1.5", "scans of index data under non-default locality"), (c03, "R3.1", "wire-format field lengths"), (c05, "R5.1", "real vs filler entry lengths")):
         for rr in mod.check(repo):
             if rr.id != rid:
                 continue
@@ -542,6 +543,11 @@ def registry_refuses(fi):
     paths = summarize(fi, unroll=1, follow_exc=True)
     if not raising(paths, "ValueError"):
         return "no path raises ValueError"
+    # `name in ('abc')` is a substring test on a string (the parentheses do not make a tuple): '' and every fragment pass it
+    for x in ast.walk(fi.node):
+        if isinstance(x, ast.Compare) and len(x.ops) == 1 and isinstance(x.ops[0], (ast.In, ast.NotIn)) and \
+                isinstance(x.comparators[0], ast.Constant) and isinstance(x.comparators[0].value, (str, bytes)):
+            return "the name is tested with `%s`, a substring test against one string: the empty name and every fragment of a known name are accepted" % unparse(x)
     for p in normal(paths):
         if not p.returned or p.ret == ("const", None):
             return "a path ends without returning an implementation [%s]" % describe_alt(p.facts)
